@@ -28,6 +28,6 @@ META = {
     ),
 }
 
-HOOK_COMMITS = ['a5971b9 verif hook: VerifPoolGraph exposes the pool\'s dependency graph (Tx.SortUnconfirmedTx) to the verification harness (build tag verif)',
+HOOK_COMMITS = ['44d6a7a verif hook: VerifPoolGraph exposes the pool\'s dependency graph (Tx.SortUnconfirmedTx) to the verification harness (build tag verif)',
                 '8c92a5d verif hook: export Miner.packBlock as VerifPackBlock (build tag verif)',
                 '9cb7709 verif hook: signal completion of the pending-transaction replay started by State.Walk (build tag verif)']
